@@ -126,17 +126,33 @@ def run(ctx):
         chk.ob("C02.a", f"{wrf.path} [reads the cell on every emission]", okl, "the global leaf is the Some payload of GLOBAL_RECORDER.try_load() evaluated in this call; the no-op leaf is gated by that call returning None" if okl else "with_recorder does not dispatch on a fresh GLOBAL_RECORDER.try_load() result (cached lookup? a miss would be remembered)", wrf.loc())
 
     # ---- C02.b publication
-    wr = [c for c in nonforeign_calls(sgr) if (strip_generics(c.resolved or "").endswith("::write") or c.is_("ptr::write", "mem::replace", "UnsafeCell<T>::replace")) and not b.blocks[c.bb].get("cleanup")]
-    wr = [c for c in wr if _mentions_static(arg_syms(c)[0], GLOBAL)]
-    if len(wr) != 1:
-        chk.unrecognised("C02.b", f"{sgr.path} [cell write]", f"expected one raw write into the cell's UnsafeCell, found {[c.resolved for c in wr]}", sgr.loc())
+    # writes into the cell's UnsafeCell: ptr.write(v) / ptr::write(ptr, v) / *ptr = v
+    cell_writes = []  # (bb, dest-sym, value-sym, loc)
+    for c in nonforeign_calls(sgr):
+        if (strip_generics(c.resolved or "").endswith("::write") or c.is_("ptr::write", "mem::replace", "UnsafeCell<T>::replace")) and not b.blocks[c.bb].get("cleanup"):
+            a_ = arg_syms(c)
+            if _mentions_static(a_[0], GLOBAL):
+                cell_writes.append((c.bb, a_[0], a_[1] if len(a_) > 1 else None, c.loc()))
+    for i, k, st in b.stmts():
+        if st["k"] == "assign" and st["p"].get("pr") and st["p"]["pr"][0] == "*" and not b.blocks[i].get("cleanup"):
+            base = sy.local(st["p"]["l"])
+            if sym_is_call(base, "UnsafeCell<T>::get") and _mentions_static(base, GLOBAL):
+                cell_writes.append((i, base, sy.rvalue(st["rv"], 0, frozenset()), f"{sgr.file}:{st.get('ln')}"))
+    if len(cell_writes) != 1:
+        chk.unrecognised("C02.b", f"{sgr.path} [cell write]", f"expected one raw write into the cell's UnsafeCell, found {len(cell_writes)}", sgr.loc())
     else:
-        w = wr[0]
-        ws = arg_syms(w)
+        class _W:
+            pass
+
+        w = _W()
+        w.bb, dst_sym, val_sym, wloc = cell_writes[0]
+        w.loc = lambda: wloc
+        ws = [dst_sym, val_sym]
         on_success = flow.at(w.bb) == "P"
         dst_ok = sym_is_call(ws[0], "UnsafeCell<T>::get")
         chk.ob("C02.b", f"{sgr.path} [write on CAS-success path]", on_success and dst_ok, "UnsafeCell write only reachable after the CAS succeeded" if on_success and dst_ok else f"write not confined to the success path (after successful CAS={on_success}, dest={sym_str(ws[0])[:80]})", w.loc())
-        dom = b.dominates(w.bb, stc.bb) and w.bb != stc.bb
+        # a `*ptr = v` statement precedes the terminator of its own block
+        dom = b.dominates(w.bb, stc.bb) and (w.bb != stc.bb or cell_writes[0][3].startswith(sgr.file + ":") and not any(c.bb == w.bb and (strip_generics(c.resolved or "").endswith("::write") or c.is_("ptr::write")) for c in nonforeign_calls(sgr)))
         chk.ob("C02.b", f"{sgr.path} [write before publish]", dom, "the cell write dominates the publishing write of INITIALIZED" if dom else "the publishing write of INITIALIZED is reachable without the cell write having happened (publish hoisted above initialisation)", stc.loc())
         so = orderings_in(stargs)
         okord = len(so) == 1 and so[0] in RELEASING
@@ -149,7 +165,22 @@ def run(ctx):
     lb = load.body
     lops = atomic_ops(load)
     lds = [o for o in lops if o[1] == "load"]
-    reads = [c for c in nonforeign_calls(load) if strip_generics(c.resolved or "").endswith("::read") or c.is_("ptr::read", "read_volatile")]
+    lsy = Sym(load)
+    read_bbs = [c.bb for c in nonforeign_calls(load) if strip_generics(c.resolved or "").endswith("::read") or c.is_("ptr::read", "read_volatile")]
+    for i, k, st in lb.stmts():
+        if st["k"] == "assign" and st["rv"]["k"] == "use":
+            pl = st["rv"]["a"].get("copy") or st["rv"]["a"].get("move")
+            if pl and pl.get("pr") and pl["pr"][0] == "*" and sym_is_call(lsy.local(pl["l"]), "UnsafeCell<T>::get"):
+                read_bbs.append(i)  # `*self.recorder.get()`
+
+    class _R:
+        def __init__(self, bb):
+            self.bb = bb
+
+        def loc(self):
+            return load.loc()
+
+    reads = [_R(x) for x in sorted(set(read_bbs))]
     if len(lds) != 1 or len(reads) != 1 or len(lops) != 1:
         chk.unrecognised("C02.b", f"{load.path}", f"expected one state load and one raw read, found atomics {[o[1] for o in lops]} reads {len(reads)}", load.loc())
     else:
@@ -168,7 +199,17 @@ def run(ctx):
                     return ("N", "T") if s[1] == "Eq" else ("T", "N")
             return None
 
-        lflow = PredFlow(load, lambda subj, v: None, cbool)
+        def csw(subj, v):
+            if sym_is_call(subj, "load"):
+                if v == inited:
+                    return "P"
+                if isinstance(v, tuple) and v and v[0] == "not" and inited in v[1]:
+                    return "N"
+                if isinstance(v, int):
+                    return "N"
+            return None
+
+        lflow = PredFlow(load, csw, cbool)
         conf = lflow.at(reads[0].bb) == "P"
         chk.ob("C02.b", f"{load.path} [read gated by INITIALIZED]", conf, f"UnsafeCell read reachable only when the loaded state == {inited}" if conf else f"the UnsafeCell read is not confined to state == INITIALIZED ({inited}): a half-installed recorder can be observed", reads[0].loc())
 
